@@ -253,7 +253,7 @@ impl P16E1 {
                 Self::MIN_POSITIVE.neg()
             }
         } else {
-            Self::from_bits(crate::convert::convert_float!(P16E1, f32, ui))
+            Self::from_bits(crate::convert::convert_float!(P16E1, f32, ui, u64, i64))
         }
     }
 
@@ -291,7 +291,7 @@ impl P16E1 {
                 Self::MIN_POSITIVE.neg()
             }
         } else {
-            Self::from_bits(crate::convert::convert_float!(P16E1, f64, ui))
+            Self::from_bits(crate::convert::convert_float!(P16E1, f64, ui, u128, i128))
         }
     }
 
